@@ -68,6 +68,14 @@ def check(prog: Program, tier: str) -> Result:
 
 
 SEARCH_ENTRY = {"find_design", "search", "search_successive", "calculate_excess", "initialize_ghe", "size"}
+# an exception other than ValueError that the PINNED code raises at the same place, only implicitly (hand-confirmed): spelling it
+# out changes nothing for the caller
+RAISE_ACCEPT = {
+    ("ghedesigner.ground_heat_exchangers.BaseGHE.combine_sts_lts", "IndexError"):
+        "the pinned walk `while log_time_sts[i] <= min(log_time_lts): i += 1` runs off the end with exactly this IndexError when no short-time point lies beyond the first long-time one; "
+        "a rewrite of the walk (for / enumerate / else) has to raise it itself to keep that behaviour",
+}
+
 SWALLOW_ACCEPT = {
     "ghedesigner.search_routines.BisectionZD.search_successive": "a candidate list on which the search fails ends the scan of lists; the lists scanned before it decide (R05.3)",
 }
@@ -832,6 +840,10 @@ def _raise_discipline(prog: Program, res: Result):
             name = attr_chain(r.exc.func) if isinstance(r.exc, ast.Call) else attr_chain(r.exc)
             if name == "ValueError":
                 continue
+            acc = RAISE_ACCEPT.get((q, name))
+            if acc is not None:
+                res.ob("R02.4", f"{q}: raise {name} - accepted: {acc[:110]}", True, prog.loc(fi, r))
+                continue
             # exhaustive-else exception
             okx, why = _exhaustive_else(prog, fi, r)
             res.ob("R02.4", f"{q}: raise {name} sits in the else of a chain exhaustive over its enum ({why})", okx, prog.loc(fi, r))
@@ -934,6 +946,57 @@ def _exhaustive_else(prog: Program, fi, r: ast.Raise):
             else:
                 return None
 
+    def table_keys(name_node):
+        """the keys of a dict display bound once to this name in the function or at module level"""
+        if not isinstance(name_node, ast.Name):
+            return None
+        defs = [a for a in ast.walk(fi.node) if isinstance(a, ast.Assign) and any(isinstance(t_, ast.Name) and t_.id == name_node.id for t_ in a.targets)]
+        v = defs[0].value if len(defs) == 1 else (prog.modules[fi.module].constants.get(name_node.id) if not defs else None)
+        return v.keys if isinstance(v, ast.Dict) and all(k is not None for k in v.keys) else None
+
+    def exhaustive_keys(keys):
+        mem, enum_ = set(), None
+        for k in keys:
+            c = attr_chain(k)
+            if not (c and c.count(".") == 1) or (enum_ is not None and enum_ != c.split(".")[0]):
+                return False, "the table is not keyed by the members of one enum"
+            enum_ = c.split(".")[0]
+            mem.add(c.split(".")[1])
+        rr_ = prog.resolve_name(fi.module, enum_) if enum_ else None
+        if rr_ and rr_[0] == "class":
+            allm_ = set(prog.enum_members(rr_[1].qualname))
+            return (True, f"{enum_}: {sorted(mem)} (table)") if mem == allm_ else (False, f"{enum_} members missing from the table: {sorted(allm_ - mem)}")
+        return False, "the table is not keyed by the members of one enum"
+
+    # the same dispatch written with a table:  try: x = TABLE[k]  except KeyError: raise ...   |   x = TABLE.get(k); if x is None: raise ...
+    for n in ast.walk(fi.node):
+        if isinstance(n, ast.Try) and any(any(r is x for x in ast.walk(h)) for h in n.handlers):
+            h = next(h for h in n.handlers if any(r is x for x in ast.walk(h)))
+            htypes = {attr_chain(e) for e in (h.type.elts if isinstance(h.type, ast.Tuple) else [h.type])} if h.type is not None else set()
+            subs = [x for s_ in n.body for x in ast.walk(s_) if isinstance(x, ast.Subscript) and isinstance(x.ctx, ast.Load) and table_keys(x.value) is not None]
+            if htypes and htypes <= {"KeyError", "TypeError"} and len(n.body) == 1 and len(subs) == 1:
+                return exhaustive_keys(table_keys(subs[0].value))
+        if isinstance(n, ast.If) and any(r is x for b_ in n.body for x in ast.walk(b_)) and isinstance(n.test, ast.Compare) and len(n.test.ops) == 1 and isinstance(n.test.ops[0], ast.Is) \
+                and isinstance(n.test.left, ast.Name) and isinstance(n.test.comparators[0], ast.Constant) and n.test.comparators[0].value is None:
+            x_ = n.test.left.id
+            defs_ = [a for a in walk_no_nested(fi.node) if isinstance(a, ast.Assign) and any(isinstance(t_, ast.Name) and t_.id == x_ for t_ in a.targets)]
+            if len(defs_) == 1 and isinstance(defs_[0].value, ast.Call) and isinstance(defs_[0].value.func, ast.Attribute) and defs_[0].value.func.attr == "get" and table_keys(defs_[0].value.func.value) is not None \
+                    and (len(defs_[0].value.args) == 1 or (isinstance(defs_[0].value.args[1], ast.Constant) and defs_[0].value.args[1].value is None)):
+                return exhaustive_keys(table_keys(defs_[0].value.func.value))
+            # ... or already expanded into  if k == E.A: x = ..  elif k == E.B: x = .. else: x = None
+            nones = [a for a in defs_ if isinstance(a.value, ast.Constant) and a.value.value is None]
+            if len(defs_) >= 3 and len(nones) == 1 and id(nones[0]) in blocks and isinstance(blocks[id(nones[0])][2], ast.If) and blocks[id(nones[0])][3] == "orelse":
+                tests_ = []
+                cur = blocks[id(nones[0])][2]
+                while True:
+                    tests_.append(cur.test)
+                    if id(cur) in blocks and isinstance(blocks[id(cur)][2], ast.If) and blocks[id(cur)][3] == "orelse" and len(blocks[id(cur)][0]) == 1:
+                        cur = blocks[id(cur)][2]
+                    else:
+                        break
+                keys_ = [t_.comparators[0] for t_ in tests_ if isinstance(t_, ast.Compare) and len(t_.ops) == 1 and isinstance(t_.ops[0], ast.Eq)]
+                if len(keys_) == len(tests_) == len(defs_) - 1 and len({ast.unparse(t_.left) for t_ in tests_}) == 1:
+                    return exhaustive_keys(keys_)
     tests = []
     node = r
     while id(node) in blocks:
